@@ -47,6 +47,8 @@ class FakeCtl:
         self.current = {"file": False, "bytes": {k: 0 for k in files}, "alive": True, "src": None}
         self.realised = []
         self.popen = None
+        self.launched = False
+        self.top = None
         self.only = None          # if set: only Popen objects whose argv contains this word are ticked
         self.exit_code = exit_code
         self.t = 0
@@ -89,14 +91,40 @@ class FakeCtl:
             if a != "ok":
                 raise HarnessHang(f"unexpected answer {a!r}")
 
+    def _hello(self, hello):
+        if hello[0] != "hello":
+            raise HarnessHang(f"bad hello {hello}")
+        self.pid = int(hello[1])
+        # the process the ENGINE started (our child, leader of the session made by preexec_fn=os.setsid):
+        # the talking program itself, or its launcher
+        self.launched = len(hello) > 3 and hello[3] == "1"
+        self.top = int(hello[2]) if self.launched else self.pid
+
     def child_dead(self):
+        """has the process the engine started terminated (zombie or reaped)?"""
         if self.pid is None:
             return False
         try:
-            r = os.waitid(os.P_PID, self.pid, os.WEXITED | os.WNOWAIT | os.WNOHANG)
+            r = os.waitid(os.P_PID, self.top, os.WEXITED | os.WNOWAIT | os.WNOHANG)
         except ChildProcessError:
             return True
         return r is not None
+
+    def group_alive(self):
+        """pids of live (non-zombie) processes in the process group the engine created for this propagation"""
+        out = []
+        for d in os.listdir("/proc"):
+            if not d.isdigit():
+                continue
+            try:
+                with open(f"/proc/{d}/stat") as fh:
+                    st = fh.read()
+            except OSError:
+                continue
+            rest = st[st.rfind(")") + 2:].split()
+            if int(rest[2]) == self.top and rest[0] != "Z":
+                out.append(int(d))
+        return out
 
     def _wait_dead(self):
         t0 = time.monotonic()
@@ -118,10 +146,7 @@ class FakeCtl:
         self.t += 1
         self.log.append(kind)
         if self.pid is None:
-            hello = self._readline().split()
-            if hello[0] != "hello":
-                raise HarnessHang(f"bad hello {hello}")
-            self.pid = int(hello[1])
+            self._hello(self._readline().split())
         if self.child_dead():
             return
         if want["file"] and not self.created:
@@ -150,22 +175,35 @@ class FakeCtl:
             if r:
                 self._buf += os.read(self.ack_fd, 4096)
                 if b"\n" in self._buf:
-                    self.pid = int(self._readline().split()[1])
+                    self._hello(self._readline().split())
             if self.pid is None:
                 state = "never-started"
         if self.pid is not None and not self.child_dead():
             state = "orphan"
+        elif self.pid is not None and self.launched:
+            # "the program" is the whole process group: give the members up to 2 s to go away
+            t0 = time.monotonic()
+            while self.group_alive():
+                if time.monotonic() - t0 > 2.0:
+                    state = "orphan"
+                    break
+                time.sleep(0.002)
+        if state == "orphan":
             try:
-                os.killpg(self.pid, signal.SIGKILL)
+                os.killpg(self.top, signal.SIGKILL)
             except (ProcessLookupError, PermissionError):
-                try:
-                    os.kill(self.pid, signal.SIGKILL)
-                except ProcessLookupError:
-                    pass
+                for p in (self.top, self.pid):
+                    try:
+                        os.kill(p, signal.SIGKILL)
+                    except ProcessLookupError:
+                        pass
             self._wait_dead()
+            t0 = time.monotonic()
+            while self.launched and self.group_alive() and time.monotonic() - t0 < HANG_S:
+                time.sleep(0.002)
         if self.pid is not None:
             try:
-                os.waitpid(self.pid, os.WNOHANG)
+                os.waitpid(self.top, os.WNOHANG)
             except ChildProcessError:
                 pass
         for fd in (self.cmd_fd, self.ack_fd):
